@@ -49,7 +49,17 @@ SeqsUpTo(S, l) == IF l = 0 THEN {<<>>}
 
 OntRow(fam, n, bks, sigs) == [chain |-> "ont", fam |-> fam, n |-> n, m |-> 0, script |-> "tracked", bks |-> bks, sigs |-> sigs]
 
+\* one validator listed (and signing) k times, padded with tracked validators that are listed but do not sign: the distinct
+\* LISTED count reaches the threshold while the distinct SIGNER count is one (a multi-signature routine that masks by list
+\* position accepts k copies of one signature against k copies of one key)
+DupIdle(n, maxT) ==
+    UNION {UNION {{OntRow("dup-plus-idle", n, Rep(d, k) \o SetToSeq(T), Rep(d, k)) : k \in 2..n}
+                  : T \in {X \in NeSub(n) : d \notin X /\ Cardinality(X) <= maxT}} : d \in 1..n}
+    \cup UNION {UNION {{OntRow("idle-plus-dup", n, SetToSeq(T) \o Rep(d, k), Rep(d, k)) : k \in 2..n}
+                  : T \in {X \in NeSub(n) : d \notin X /\ Cardinality(X) <= maxT}} : d \in 1..n}
+
 OntFamilies(n) ==
+    DupIdle(n, n) \cup
     {OntRow("subset", n, SetToSeq(S), SetToSeq(S)) : S \in Sub(n)}
     \cup {OntRow("repeat", n, Rep(v, k), Rep(v, k)) : v \in 1..n, k \in 2..(n + 1)}
     \cup UNION {{OntRow("onedup", n, Append(SetToSeq(S), d), Append(SetToSeq(S), d)) : d \in S} : S \in NeSub(n)}
@@ -65,6 +75,7 @@ OntFamilies(n) ==
     \cup {OntRow("repeat-foreign", n, Rep(F1(n), k), Rep(F1(n), k)) : k \in 1..n}
 
 OntLight(n) ==
+    DupIdle(n, 2) \cup
     {OntRow("subset", n, SetToSeq(S), SetToSeq(S)) : S \in Sub(n)}
     \cup {OntRow("repeat", n, Rep(v, k), Rep(v, k)) : v \in 1..n, k \in 2..(n + 1)}
     \cup {OntRow("repeat-foreign", n, Rep(F1(n), k), Rep(F1(n), k)) : k \in 1..n}
